@@ -87,6 +87,56 @@ func isSum32Of(v ssa.Value) (cw ssa.Value, ok bool) {
 	return nil, false
 }
 
+// helperEndsWithCRC: helper writes fields with binary.Write through the writer
+// parameter that the call binds to w, and the last of its writes carries that
+// writer's running CRC: the writer argument, else nil.
+func helperEndsWithCRC(helper *ssa.Function, call *ssa.Call, w ssa.Value) ssa.Value {
+	var wp *ssa.Parameter
+	for i, a := range call.Call.Args {
+		if a == w && i < len(helper.Params) {
+			wp = helper.Params[i]
+		}
+	}
+	if wp == nil {
+		return nil
+	}
+	var ws []*ssa.Call
+	for _, b := range helper.Blocks {
+		for _, ins := range b.Instrs {
+			if hc, ok := ins.(*ssa.Call); ok && hc.Call.StaticCallee() != nil && funcFullName(hc.Call.StaticCallee()) == "encoding/binary.Write" {
+				if _, _, base := writerChain(hc.Call.Args[0]); base != ssa.Value(wp) {
+					return nil // writes past the writer it was given
+				}
+				ws = append(ws, hc)
+			}
+		}
+	}
+	var last *ssa.Call
+	n := 0
+	for _, x := range ws {
+		final := true
+		for _, y := range ws {
+			if y != x && canExecuteAfter(x, y) {
+				final = false
+			}
+		}
+		if final && !canExecuteAfter(x, x) {
+			last, n = x, n+1
+		}
+	}
+	if n != 1 {
+		return nil
+	}
+	data := last.Call.Args[2]
+	if mi, ok := data.(*ssa.MakeInterface); ok {
+		data = mi.X
+	}
+	if src, ok := isSum32Of(data); ok && src == ssa.Value(wp) {
+		return w
+	}
+	return nil
+}
+
 // storesToFieldOf lists stores in fn to field `name` of the object pointed to by base.
 func storesToFieldOf(fn *ssa.Function, base ssa.Value, name string) []*ssa.Store {
 	var out []*ssa.Store
@@ -467,6 +517,7 @@ func init() {
 			var writes []*ssa.Call
 			writerOf := map[*ssa.Call]ssa.Value{}
 			dataOf := map[*ssa.Call][]ssa.Value{}
+			sumOfHelper := map[*ssa.Call]ssa.Value{}
 			footerParam := paramOfType(fn, "*"+rootPkgPath+".footer")
 			writerParam := paramOfType(fn, "io.Writer")
 			if footerParam == nil || writerParam == nil {
@@ -522,6 +573,12 @@ func init() {
 							writes = append(writes, call)
 							writerOf[call] = w
 							dataOf[call] = data
+							// a helper that writes a group of fields itself and ends with the running CRC of the
+							// writer it is handed (persistFooterTrailer(w)): the call stands for that last write
+							if hw := helperEndsWithCRC(sc, call, w); hw != nil {
+								sumOfHelper[call] = hw
+								dataOf[call] = data[:1]
+							}
 						}
 					}
 				}
@@ -639,7 +696,12 @@ func init() {
 			if mi, ok := data.(*ssa.MakeInterface); ok {
 				data = mi.X
 			}
-			if src, ok := isSum32Of(data); !ok || src != ssa.Value(cw) {
+			if hw, viaHelper := sumOfHelper[last]; viaHelper {
+				if _, ctors, _ := writerChain(hw); len(ctors) == 0 || ctors[0] != ssa.Value(cw) {
+					r.bad(key, fnName(fn), c.pos(last.Pos()), "the helper that writes the CRC last is not handed the footer's hashing writer")
+					return
+				}
+			} else if src, ok := isSum32Of(data); !ok || src != ssa.Value(cw) {
 				r.bad(key, fnName(fn), c.pos(last.Pos()), "the last footer write is not the running CRC of the hashing writer (it writes "+data.String()+")")
 				return
 			}
@@ -959,7 +1021,14 @@ func init() {
 				key := "parseFooter/sets-" + f
 				found := false
 				notDecoded := ""
-				for _, b := range parse.Blocks {
+				// (in parseFooter or in the helpers it is split into)
+				var parseBlocks []*ssa.BasicBlock
+				for pf := range c.reach([]*ssa.Function{parse}) {
+					if c.inRoot(pf) {
+						parseBlocks = append(parseBlocks, pf.Blocks...)
+					}
+				}
+				for _, b := range parseBlocks {
 					for _, ins := range b.Instrs {
 						if s, ok := ins.(*ssa.Store); ok {
 							if fa, ok := s.Addr.(*ssa.FieldAddr); ok {
